@@ -62,6 +62,8 @@ def uses(content):
         for cpd, cj in r["st"]:
             if "c" not in cj:
                 out.append(("gen", cj["name"], ident(cj), list(cj["args"])))
+    for k, f in content.get("readouts", []):      # written like derived quantities (since the repair of F-C11-8)
+        out.append(("comp", f["name"], ident(f), list(f["args"])))
     return out
 
 
@@ -96,7 +98,8 @@ def input_class(content):
 def expected_def_keys(content):
     """keys of the emitted definitions in emission order, restated from the documentation of `_free_name` (a generated
     name is extended until neither a derived / reaction function nor an earlier generated name has it)"""
-    taken = {f["name"] for _, f in content["derived"]} | {r["name"] for _, r in content["rxns"]}
+    taken = ({f["name"] for _, f in content["derived"]} | {r["name"] for _, r in content["rxns"]}
+             | {f["name"] for _, f in content.get("readouts", [])})
     keys = []
 
     def free(name):
@@ -122,6 +125,8 @@ def expected_def_keys(content):
         for cpd, cj in r["st"]:
             if "c" not in cj:
                 put(free(f"{k}_stoich_{cj['name']}"))
+    for k, f in content.get("readouts", []):
+        put(f["name"])
     return keys
 
 
@@ -236,6 +241,17 @@ def heads_of(struct):
             + [["reaction", k, list(args), [[c, a(f)] for c, f in st]] for k, args, st in struct["rxns"]])
 
 
+def readouts_of(m):
+    """names, argument lists and values (default state, time 0) of the model's readouts"""
+    ros = m.get_raw_readouts()
+    try:
+        vals = m.get_args(include_readouts=True)
+        v = [[k, C.num(float(vals[k]))] for k in ros]
+    except Exception as e:  # noqa: BLE001
+        v = {"err": [type(e).__name__]}
+    return {"readouts": [[k, list(r.args)] for k, r in ros.items()], "values": v}
+
+
 def _round_trip(m, qs):
     """answers of the model, generated source, answers of the model rebuilt by executing that source"""
     from mxlpy.meta import generate_mxlpy_code
@@ -243,12 +259,19 @@ def _round_trip(m, qs):
     out = {}
     out["S"] = [cc.canon_R(q, C.run_query(m, q)) for q in qs]
     out["S_struct"] = structure_of(m)
+    out["S_ro"] = readouts_of(m)
     try:
         src = generate_mxlpy_code(m)
     except Exception as e:  # noqa: BLE001
         out["gen"] = {"err": [type(e).__name__]}
         return out
     out["src"] = src
+    try:
+        out["def_texts"] = [[n.name, [a.arg for a in n.args.args], ast.get_source_segment(src, n.body[0].value)]
+                            for n in ast.parse(src).body
+                            if isinstance(n, ast.FunctionDef) and n.name != "create_model" and isinstance(n.body[0], ast.Return)]
+    except Exception:  # noqa: BLE001
+        out["def_texts"] = []
     try:
         out["shape"] = source_shape(src)
     except SyntaxError:
@@ -265,6 +288,7 @@ def _round_trip(m, qs):
         return out
     out["R"] = [cc.canon_R(q, C.run_query(m2, q)) for q in qs]
     out["R_struct"] = structure_of(m2)
+    out["R_ro"] = readouts_of(m2)
     return out
 
 
@@ -351,9 +375,10 @@ def exhaustive_cases(thorough: bool):
     return out
 
 
-def _request(c, content):
+def _request(c, content, def_texts=None):
     table, wc = to_lean_wire(content)
-    return {"op": "c11", "fns": table, "content": wc, "bad": c.get("bad", []), "queries": c["queries"]}
+    return {"op": "c11", "fns": table, "content": wc, "bad": c.get("bad", []), "queries": c["queries"],
+            "defTexts": def_texts or []}
 
 
 def evaluate(cases, use_driver=True):
@@ -365,10 +390,10 @@ def evaluate(cases, use_driver=True):
         for i, c in enumerate(cases):
             if c.get("oracle_only"):
                 continue
-            reqs.append(_request(c, c["content"]))
+            reqs.append(_request(c, c["content"], Rs[i].get("def_texts")))
             where.append((i, "phase1"))
             if c.get("session"):
-                reqs.append(_request(c, cg.content_phase2(c["content"])))
+                reqs.append(_request(c, cg.content_phase2(c["content"]), (Rs[i].get("phase2") or {}).get("def_texts")))
                 where.append((i, "phase2"))
         for (i, ph), r in zip(where, driver.call_batch(reqs)):
             if cases[i].get("session"):
@@ -436,6 +461,25 @@ def gen_case(ctx, i):
         qs = cc.standard_queries(rng, content, n_states=2)
     if stratum == "module-constants":
         extra["session"] = cg.has_session(content)
+    if stratum == "unique+shared" and rng.random() < 0.25:
+        # readouts (outside the property's four kinds, written since the repair of F-C11-8): functions over any names of
+        # the model, sometimes the function object of another component; oracle only (the Lean model has no readouts)
+        names = [k for k, _ in content["vars"] + content["pars"] + content["derived"] + content["rxns"]]
+        fs = [f for f in all_fns(content)]
+        ros = []
+        for j in range(rng.randint(1, 2)):
+            n = rng.randint(1, min(2, len(names)))
+            args = rng.sample(names, n)
+            same = [f for f in fs if len(f["args"]) == n]
+            if same and rng.random() < 0.4:
+                f0 = rng.choice(same)
+                d = dict({k: copy.deepcopy(f0[k]) for k in ("e", "params") if k in f0}, args=args, name=f0["name"])
+            else:
+                d = {"args": args, "e": cg.gen_fn_expr(rng, args, 2), "name": f"ro_fn{j}"}
+            ros.append([f"readout{j}", d])
+        content["readouts"] = ros
+        stratum = "readouts"
+        extra["oracle_only"] = True
     bad = []
     if stratum == "untranslatable":
         f = rng.choice(list(all_fns(content)))
@@ -489,7 +533,7 @@ def judge_oracle_only(ctx, case, R):
     ctx.count({k: case[k] for k in ("content", "queries", "bad")},
               f"{case.get('stratum', '?')}:{cg.shape_of(case['content'])}:{fid or 'in-scope'}")
     base = {k: case[k] for k in ("content", "bad", "decl_seed", "oracle_only") if k in case}
-    if all("err" in S or not cg.finite_answer(S) for S in R["S"]):
+    if all("err" in S or not cg.finite_answer(S) for S in R["S"]) and not case["content"].get("readouts"):
         ctx.hist["skipped_model_raises"] = ctx.hist.get("skipped_model_raises", 0) + 1
         return
     if dup:
@@ -501,6 +545,9 @@ def judge_oracle_only(ctx, case, R):
         return
     ctx.judge(dict(base, queries=[]), R["R_struct"], R["S_struct"], None,
               what="component names / kinds / arguments / plain values (oracle-only stratum)")
+    if case["content"].get("readouts"):
+        ctx.judge(dict(base, queries=[]), R.get("R_ro"), R["S_ro"], None,
+                  what="readouts of the rebuilt model: names, arguments, values at the initial state (oracle-only stratum)")
     for i, q in enumerate(case["queries"]):
         S, Rq = R["S"][i], R["R"][i]
         if "err" in S or not cg.finite_answer(S):
@@ -584,6 +631,15 @@ def judge_phase(ctx, case, R, M, tag=""):
                     ctx.add_drift(dict(base, queries=[]), heads, Mp["ok"]["defs"], "definition heads of an unparsable source")
         else:
             ctx.add_drift(dict(base, queries=[]), R["shape"], Mp, "Lean generator fails where the code emits source")
+    # ---- the `return` expression of every emitted definition, read by the Lean expression reader (Mxl.C07Expr, proved
+    #      against the printer policy) at sample arguments, against the Lean program's definition under that key
+    if M is not None and "defChecks" in M:
+        for (key, _, text), ok in zip(R.get("def_texts") or [], M["defChecks"]):
+            kind = "agree" if ok is True else ok if isinstance(ok, str) else "differ"
+            ctx.hist[f"def_texts_{kind}"] = ctx.hist.get(f"def_texts_{kind}", 0) + 1
+            if ok is False or ok in ("no-such-def", "other-parameters"):
+                ctx.add_drift(dict(base, queries=[]), {"def": key, "text": text}, ok,
+                              "emitted definition read by the Lean expression reader vs the Lean program's definition" + tag)
     # ---- keys of the emitted definitions: every generated name is handed out once
     if "err" not in R["shape"]:
         Mk = [d[0] for d in M["program"]["ok"]["defs"]] if M is not None and "ok" in M["program"] else None
@@ -658,6 +714,13 @@ def _rich(name, args, e):
 
 
 CORPUS += [
+    # readouts (F-C11-8, repaired: they were dropped silently): one shares the reaction's function object, one has its own
+    {"content": {"vars": [["x", {"v": "1"}]], "pars": [["k", {"v": "3"}]],
+                 "derived": [["d1", {"args": ["x", "k"], "e": _F["sub"], "name": "f"}]],
+                 "rxns": [["r", {"args": ["d1", "k"], "e": _F["mul"], "name": "g", "st": [["x", {"c": "-1"}]]}]],
+                 "readouts": [["ro1", {"args": ["r", "x"], "e": _F["mul"], "name": "g"}],
+                              ["ro2", {"args": ["d1", "x"], "e": _F["add"], "name": "h"}]]},
+     "oracle_only": True, "queries": [["args", None, "0"], ["rhs", None, "0"]]},
     # constants of the math module: the generated source must import the module its definitions refer to (F-C11-7,
     # repaired), and the modulus 2*pi keeps its parentheses
     {"content": {"vars": [["x", {"v": "8"}]], "pars": [["p", {"v": "2"}]],
@@ -699,6 +762,67 @@ CORPUS += [
 ]
 
 
+# --------------------------------------------------------------------------- outside the four kinds: units, data
+
+
+def _probe_worker(kind):
+    """tiny models with what the property's scope leaves out; -> (R, S) of one observable"""
+    import logging
+    import warnings
+
+    warnings.filterwarnings("ignore")
+    logging.disable(logging.CRITICAL)
+    import pandas as pd
+    from mxlpy import Model, fns, units
+    from mxlpy.meta import generate_mxlpy_code
+
+    def base():
+        return (Model().add_variable("x", 1.0).add_parameter("k", 2.0)
+                .add_reaction("r", fn=fns.mass_action_1s, args=["x", "k"], stoichiometry={"x": -1.0}))
+
+    def units_of(m):
+        return [[k, str(v.unit)] for k, v in list(m.get_raw_variables().items()) + list(m.get_raw_parameters().items())
+                + list(m.get_raw_derived().items()) + list(m.get_raw_reactions().items())]
+
+    if kind == "units-variable":
+        m = (Model().add_variable("x", 1.0, unit=units.kelvin).add_parameter("k", 2.0, unit=units.second)
+             .add_reaction("r", fn=fns.mass_action_1s, args=["x", "k"], stoichiometry={"x": -1.0}))
+        obs = units_of
+    elif kind == "units-derived":
+        m = base().add_derived("d", fn=fns.mul, args=["x", "k"], unit=units.kelvin)
+        obs = units_of
+    elif kind == "data-unused":
+        m = base().add_data("dat", pd.Series({"a": 1.0, "b": 2.0}))
+        obs = lambda mm: sorted(mm._data)  # noqa: E731, SLF001
+    else:
+        raise ValueError(kind)
+    S = {"ok": obs(m)}
+    try:
+        src = generate_mxlpy_code(m)
+    except Exception as e:  # noqa: BLE001
+        return {"err": ["generation", type(e).__name__]}, S, {"alt": {"err": ["ValueError"]}}
+    try:
+        ns: dict = {}
+        exec(compile(src, "<generated-mxlpy>", "exec"), ns)  # noqa: S102
+        m2 = ns["create_model"]()
+    except Exception as e:  # noqa: BLE001
+        return {"err": ["executing the generated source", type(e).__name__]}, S, {}
+    return {"ok": obs(m2)}, S, {}
+
+
+PROBES = {"units-variable": "F-C11-9", "units-derived": "F-C11-9", "data-unused": "F-C11-10"}
+
+
+def run_probes(ctx, kinds=None):
+    """what generation does with parts of a model outside the four kinds of the statement: the observable must survive the
+    round trip (or generation must raise ValueError); the current deviations are listed findings"""
+    kinds = list(kinds or PROBES)
+    for kind, (R, S, _) in zip(kinds, pool().map(_probe_worker, kinds)):
+        case = {"probe": kind}
+        ctx.count(case, f"outside-scope:{kind}", True)
+        ctx.judge(case, R, S, None, finding=PROBES[kind], what=f"outside the four kinds: {kind} survives the round trip, or generation raises")
+
+
 def setup(ctx):
     ctx.build(PROPS)
     ctx.rule = (
@@ -733,6 +857,7 @@ def run(ctx):
     for case, (R, M) in zip(corpus, evaluate(corpus, ctx.driver_ok)):
         case["stratum"] = "corpus"
         judge_case(ctx, case, R, M)
+    run_probes(ctx)
     ex = exhaustive_cases(ctx.tier == "thorough")
     ctx.extra_cov["exhaustive_stratum"] = {"cases": len(ex), "what": exhaustive_cases.__doc__.split(":", 1)[1].strip()[:400]}
     for i in range(0, len(ex), 256):
@@ -793,6 +918,9 @@ def shrink_violation(ctx):
 
 
 def replay(ctx, rp):
+    if "probe" in rp["case"]:
+        run_probes(ctx, [rp["case"]["probe"]])
+        return
     case = prep(rp["case"])
     if not case["queries"]:
         case["queries"] = cc.standard_queries(random.Random(0), case["content"], n_states=1)
